@@ -24,6 +24,8 @@ search : when a proof or a tie breaks the generators are re-run at a larger budg
 import hashlib
 import json
 import math
+import os
+import re
 from fractions import Fraction
 
 import vlib
@@ -571,6 +573,15 @@ def floats(tokens):
 def eval_cases(ctx, exe, mexe, cases, stats, spec_only=False):
     """runs every case; records violations (spec on the implementation's output / crash) and mismatches
     (model vs implementation).  Returns the number of evaluations."""
+    extra_evals = 0
+    for c in cases:
+        if c["kind"] == "TG":
+            extra_evals += eval_tg(ctx, exe, c, stats)
+        elif c["kind"] == "TP":
+            extra_evals += eval_tp(ctx, exe, c, stats)
+    cases = [c for c in cases if c["kind"] not in ("TG", "TP")]
+    if not cases:
+        return extra_evals
     # expand GB into three thetas
     runs = []
     for ci, c in enumerate(cases):
@@ -633,7 +644,7 @@ def eval_cases(ctx, exe, mexe, cases, stats, spec_only=False):
                     ctx.violation(c, why, signature=(verdict[2] if len(verdict) > 2 else None))
                 else:
                     ctx.mismatch(c, why)
-    return len(runs) + len(post)
+    return len(runs) + len(post) + extra_evals
 
 
 def int_scale(pts):
@@ -1099,6 +1110,418 @@ def check_reported_kl(c, X, Ym, logged):
     return None
 
 
+
+# ----------------------------------------------------------------------------- OpenMP obligation (source level)
+# The models of this slice (and C18's quadtree model under bh_gradient_limit) are SERIAL programs.  They speak
+# about the real code only as long as the code they mirror contains no parallel region: QuadTree keeps a scratch
+# member buff[2] per node that computeNonEdgeForces / computeEdgeForces write and then read, VpTree::search keeps
+# _tau in the tree object, the perplexity loops share indices / distances / cur_P across rows.  C15's translator
+# (translate/t_omp.py, coq/gen/Omp.v) owns the known regions of the library; none of them is in these files.
+OMP_FILES = ["include/tapkee/external/barnes_hut_sne/tsne.hpp",
+             "include/tapkee/external/barnes_hut_sne/quadtree.hpp",
+             "include/tapkee/external/barnes_hut_sne/vptree.hpp",
+             "include/tapkee/methods/tsne.hpp"]
+PAR_RE = re.compile(r'^[ \t]*#[ \t]*pragma[ \t]+omp\b([^\n]*)'
+                    r'|_Pragma\s*\(\s*"\s*omp\b([^"]*)"'
+                    r'|\bstd\s*::\s*(?:thread|jthread|async)\b'
+                    r'|\bstd\s*::\s*execution\s*::\s*par\w*', re.M)
+
+
+def strip_cxx_comments(text):
+    """comments -> blanks (same length, newlines kept); string / char literals are left alone."""
+    out = []
+    i, n = 0, len(text)
+    while i < n:
+        ch = text[i]
+        if ch == '/' and i + 1 < n and text[i + 1] == '/':
+            j = i
+            while j < n and text[j] != '\n':
+                # a line comment continues over a backslash-newline
+                if text[j] == '\\' and j + 1 < n and text[j + 1] == '\n':
+                    out.append(' \n')
+                    j += 2
+                    continue
+                out.append(' ')
+                j += 1
+            i = j
+        elif ch == '/' and i + 1 < n and text[i + 1] == '*':
+            j = text.find('*/', i + 2)
+            j = n if j < 0 else j + 2
+            out.append(''.join('\n' if c == '\n' else ' ' for c in text[i:j]))
+            i = j
+        elif ch in '"\'':
+            j = i + 1
+            while j < n and text[j] != ch and text[j] != '\n':
+                j += 2 if text[j] == '\\' else 1
+            j = min(j + 1, n)
+            out.append(text[i:j])
+            i = j
+        else:
+            out.append(ch)
+            i += 1
+    return ''.join(out)
+
+
+def scan_parallel(repo):
+    """[(file, line, directive text, integers of its if(...) clause)] for every OpenMP directive / thread
+    construct in the t-SNE headers (comments stripped, continuation lines joined)."""
+    found = []
+    for rel in OMP_FILES:
+        try:
+            orig = open(os.path.join(repo, rel), errors="replace").read()
+        except OSError:
+            continue                      # a missing header is a build error, reported by ctx.cpp
+        txt = strip_cxx_comments(orig).replace("\\\n", "  ")
+        for m in PAR_RE.finditer(txt):
+            clause = m.group(1) or m.group(2) or ""
+            nums = []
+            for cond in re.findall(r'\bif\s*\(([^)]*)\)', clause):
+                nums += [int(x) for x in re.findall(r'\d+', cond)]
+            found.append((rel, txt.count("\n", 0, m.start()) + 1, " ".join(m.group(0).split())[:200], nums))
+    return found
+
+
+# ----------------------------------------------------------------------------- thread-count streams (TG, TP)
+THREADS = [1, 8, 16]
+DEV_TOL = 1e-9       # a reduction may reassociate a sum (rounding level, left free); anything above is a wrong value
+
+
+def bh_threshold(theta):
+    return 1e-7 if theta <= 1e-6 else 0.02 if theta <= 0.1 else 0.25
+
+
+def gen_tg_case(rng, N, thetas=(0.5, 1e-6), threads=THREADS, reps=2, closed=True):
+    """a map as it occurs mid-optimisation (a few blobs) + a sparse symmetric joint P that sums to one."""
+    nb = rng.choice([3, 5])
+    sd = rng.choice([1.5, 2.5])
+    Y = [[12.0 * math.cos(1.3 * (i % nb)) + sd * rng.gauss(0, 1), 12.0 * math.sin(1.3 * (i % nb)) + sd * rng.gauss(0, 1)]
+         for i in range(N)]
+    offs = [1, 5, 10]
+    w = {}
+    for i in range(N):
+        for o in offs:
+            j = (i + o) % N
+            if i != j:
+                w[(min(i, j), max(i, j))] = 0.25 + rng.random()
+    tot = 2 * sum(w.values())
+    rows = [[] for _ in range(N)]
+    for (a, b), v in sorted(w.items()):
+        rows[a].append((b, v / tot))
+        rows[b].append((a, v / tot))
+    row_P, col_P, val_P = [0], [], []
+    for r in rows:
+        for cidx, v in r:
+            col_P.append(cidx)
+            val_P.append(fl(v))
+        row_P.append(len(col_P))
+    return {"kind": "TG", "N": N, "row": row_P, "col": col_P, "val": val_P, "Y": [[fl(x) for x in p] for p in Y],
+            "thetas": [fl(t) for t in thetas], "threads": list(threads), "reps": reps, "closed": bool(closed)}
+
+
+def gen_tp_case(rng, N, threads=THREADS, reps=1):
+    pts = distinct_points(rng, N, 3, "dyadic")
+    return {"kind": "TP", "X": qs(pts), "perp": fl(10.0), "K": 30, "threads": list(threads), "reps": reps,
+            "rows_checked": 120, "pick": rng.randint(0, 10 ** 9)}
+
+
+def closed_form_fast(N, row, col, val, Y):
+    """closed_form_grad for a two-dimensional map, flat result (binary64)."""
+    xs = [p[0] for p in Y]
+    ys = [p[1] for p in Y]
+    Z = 0.0
+    negx, negy = [0.0] * N, [0.0] * N
+    for a in range(N):
+        xa, ya = xs[a], ys[a]
+        nx = ny = 0.0
+        za = 0.0
+        for b in range(N):
+            dx = xa - xs[b]
+            dy = ya - ys[b]
+            q = 1.0 / (1.0 + dx * dx + dy * dy)
+            za += q
+            q *= q
+            nx += q * dx
+            ny += q * dy
+        Z += za - 1.0               # the term b == a is q = 1 with a zero force
+        negx[a], negy[a] = nx, ny
+    g = [0.0] * (2 * N)
+    for a in range(N):
+        px = py = 0.0
+        for i in range(row[a], row[a + 1]):
+            b = col[i]
+            dx = xs[a] - xs[b]
+            dy = ys[a] - ys[b]
+            f = val[i] / (1.0 + dx * dx + dy * dy)
+            px += f * dx
+            py += f * dy
+        g[2 * a] = px - negx[a] / Z
+        g[2 * a + 1] = py - negy[a] / Z
+    return g
+
+
+def gb_line(cmd, i, c, theta):
+    return "%s %d %d %s %d %s %s %s %s" % (cmd, i, c["N"], fl(theta), len(c["col"]), " ".join(map(str, c["row"])),
+                                          " ".join(map(str, c["col"])), " ".join(c["val"]), " ".join(flat(c["Y"])))
+
+
+def eval_tg(ctx, exe, c, stats):
+    """computeGradient under several OpenMP thread counts against (1) the quadtree queried point by point through
+    its public interface by the serial driver and (2) the O(N^2) closed form."""
+    N = c["N"]
+    thetas = [hx(t) for t in c["thetas"]]
+    plan = []
+    for th in thetas:
+        plan.append(("S", th, 0, 0))
+        for T in c["threads"]:
+            for r in range(c["reps"]):
+                plan.append(("B", th, T, r))
+    lines = [(i, gb_line("GS" if p[0] == "S" else "GB@%d" % p[2], i, c, p[1])) for i, p in enumerate(plan)]
+    res = run_impl(ctx, exe, lines, timeout=900)
+    st = stats.setdefault("threads", {"tg_runs": 0, "tg_bit_identical": 0, "tg_max_dev": 0.0, "tp_runs": 0,
+                                      "tp_bit_identical": 0, "serial_vs_closed_form": []})
+    cf = None
+    if c.get("closed", True) and N <= 1700:
+        cf = closed_form_fast(N, c["row"], c["col"], [hx(v) for v in c["val"]], [[hx(x) for x in p] for p in c["Y"]])
+    ref = {}
+    reported = False
+
+    def narrowed(th, T):
+        return dict(c, thetas=[fl(th)], threads=[T], reps=max(3, c["reps"]))
+
+    for i, p in enumerate(plan):
+        tag, payload = res[i]
+        kind, th, T, r = p
+        what = "the serial quadtree driver" if kind == "S" else "computeGradient with %d OpenMP thread(s)" % T
+        if tag != "R":
+            if not reported:
+                ctx.violation(narrowed(th, T or 1), "%s %s on a %d-point map at theta = %g: %s" % (
+                    what, "hangs" if tag == "TIMEOUT" else "aborts", N, th, payload))
+                reported = True
+            continue
+        g = floats(payload)
+        if len(g) != 2 * N or any(v is None or math.isnan(v) or math.isinf(v) for v in g):
+            if not reported:
+                ctx.violation(narrowed(th, T or 1), "%s returned %d entries / non-finite values (N = %d, theta = %g)" % (
+                    what, len(g), N, th))
+                reported = True
+            continue
+        if kind == "S":
+            ref[th] = g
+            if cf is not None:
+                scale = max(abs(v) for v in cf) or 1e-300
+                err = max(abs(a - b) for a, b in zip(g, cf)) / scale
+                st["serial_vs_closed_form"].append([th, err])
+                if err > bh_threshold(th) and not reported:
+                    ctx.violation(narrowed(th, 1), "Barnes-Hut gradient (quadtree queried point by point) of a %d-point map at "
+                                  "theta = %g is %.3g away (relative) from the closed form edge forces - non-edge forces / "
+                                  "sum_Q; expected <= %g" % (N, th, err, bh_threshold(th)))
+                    reported = True
+            continue
+        st["tg_runs"] += 1
+        rf = ref.get(th)
+        if rf is None:
+            continue
+        if g == rf:
+            st["tg_bit_identical"] += 1
+            continue
+        scale = max(abs(v) for v in rf) or 1e-300
+        j = max(range(2 * N), key=lambda k: abs(g[k] - rf[k]))
+        dev = abs(g[j] - rf[j]) / scale
+        st["tg_max_dev"] = max(st["tg_max_dev"], dev)
+        if dev > DEV_TOL:
+            if not reported:
+                extra = ""
+                if cf is not None:
+                    extra = "; closed form %.12g" % cf[j]
+                ctx.violation(narrowed(th, T), "computeGradient (Barnes-Hut, theta = %g) on a %d-point map with %d OpenMP "
+                              "thread(s): dC[%d,%d] = %.12g but the quadtree's own sums, taken point by point, give %.12g%s "
+                              "(largest deviation %.3g relative; run %d of %d): the gradient depends on the thread count and "
+                              "is not edge forces - non-edge forces / sum_Q" % (
+                                  th, N, T, j // 2, j % 2, g[j], rf[j], extra, dev, r + 1, c["reps"]))
+                reported = True
+        else:
+            ctx.note("TG: computeGradient with %d thread(s) differs from the serial quadtree sums at rounding level "
+                     "(%.3g relative, N = %d, theta = %g): left free" % (T, dev, N, th))
+    return len(plan)
+
+
+def tp_rows(c, payload):
+    """parse + structural spec of the K-NN CSR; returns (verdict, row, col, val)."""
+    N, K = len(c["X"]), c["K"]
+    parts = split_bar(payload)
+    if len(parts) != 3:
+        return ("violation", "K-NN computeGaussianPerplexity output malformed"), None, None, None
+    row = [int(t) for t in parts[0]]
+    col = [int(t) for t in parts[1]]
+    val = floats(parts[2])
+    if row != [n * K for n in range(N + 1)] or len(col) != N * K or len(val) != N * K:
+        return ("violation", "row_P is not n*K / arrays have the wrong length"), None, None, None
+    if any(not (0 <= a < N) for a in col):
+        return ("violation", "col_P holds an index outside 0..N-1"), None, None, None
+    if any(v is None or not (v >= 0.0) or math.isinf(v) for v in val):
+        return ("violation", "val_P holds a negative / non-finite entry"), None, None, None
+    return None, row, col, val
+
+
+def tp_check_rows(c, col, val, rows):
+    """full row spec (true neighbours by brute force on exact integers, sum, entropy, Gaussian shape) on `rows`."""
+    X = unq(c["X"])
+    N, K = len(X), c["K"]
+    perp = hx(c["perp"])
+    L = int_scale(X)
+    XI = [[int(x * L) for x in p] for p in X]
+    for n in rows:
+        cols = col[n * K:(n + 1) * K]
+        vals = val[n * K:(n + 1) * K]
+        pn = XI[n]
+        d2 = [sum((a - b) * (a - b) for a, b in zip(pn, XI[m])) for m in range(N)]
+        if n in cols or len(set(cols)) != K:
+            return ("violation", "Barnes-Hut mode: row %d of P lists %s (the sample itself / a repeated neighbour)" % (n, cols[:10]))
+        want = sorted(d2[m] for m in range(N) if m != n)[:K]
+        if sorted(d2[m] for m in cols) != want:
+            return ("violation", "Barnes-Hut mode: row %d of P is computed over samples %s (squared distances %s x %d), not "
+                                 "over the %d nearest others (squared distances %s)" % (
+                                     n, cols[:10], sorted(d2[m] for m in cols)[:10], L * L, K, want[:10]))
+        dd = [d2[m] / float(L * L) for m in cols]
+        found, mrow, _ = perp_row_mirror(dd, None, perp)
+        clean = found and abs(sum(mrow) - 1.0) <= 1e-12
+        why = check_cond_row(vals, dd, list(range(K)), perp, feasible=clean, dscale=max(dd) if dd else 0.0)
+        if why:
+            return ("violation", "Barnes-Hut conditional similarities, row %d (neighbours %s): %s" % (n, cols[:12], why))
+    return None
+
+
+def sym_reference(N, row, col, val):
+    P = {}
+    for n in range(N):
+        for i in range(row[n], row[n + 1]):
+            P[(n, col[i])] = val[i]
+    E = {}
+    for (n, m), v in P.items():
+        o = P.get((m, n))
+        e = (v + o) / 2.0 if o is not None else v / 2.0
+        E[(n, m)] = e
+        E[(m, n)] = e
+    return E
+
+
+def sym_check(N, E, payload):
+    parts = split_bar(payload)
+    if len(parts) != 3:
+        return "symmetrizeMatrix output malformed"
+    row = [int(t) for t in parts[0]]
+    col = [int(t) for t in parts[1]]
+    val = floats(parts[2])
+    if (len(row) != N + 1 or row[0] != 0 or any(row[i] > row[i + 1] for i in range(N)) or row[N] != len(col)
+            or len(col) != len(val) or any(not (0 <= a < N) for a in col)):
+        return "symmetrizeMatrix returned a malformed CSR (%d row pointers, %d columns, %d values)" % (len(row), len(col), len(val))
+    G = {}
+    for n in range(N):
+        for i in range(row[n], row[n + 1]):
+            if (n, col[i]) in G:
+                return "symmetrizeMatrix: entry (%d,%d) stored twice" % (n, col[i])
+            G[(n, col[i])] = val[i]
+    if G != E:
+        bad = [k for k in E if G.get(k) != E[k]] + [k for k in G if k not in E]
+        k = min(bad)
+        return "symmetrizeMatrix: entry (%d,%d) = %r but (P + P^T)/2 has %r there (%d entries differ, N = %d)" % (
+            k[0], k[1], G.get(k), E.get(k), len(bad), N)
+    return None
+
+
+def eval_tp(ctx, exe, c, stats):
+    """K-NN computeGaussianPerplexity and symmetrizeMatrix on a larger sample set under several thread counts."""
+    X = c["X"]
+    N, K = len(X), c["K"]
+    st = stats.setdefault("threads", {"tg_runs": 0, "tg_bit_identical": 0, "tg_max_dev": 0.0, "tp_runs": 0,
+                                      "tp_bit_identical": 0, "serial_vs_closed_form": []})
+    plan = [(T, r) for T in c["threads"] for r in range(c["reps"])]
+    body = "%d %d %s %d %s" % (N, len(X[0]), c["perp"], K, " ".join(fl(Fraction(x)) for x in flat(X)))
+    res = run_impl(ctx, exe, [(i, "PK@%d %d %s" % (T, i, body)) for i, (T, r) in enumerate(plan)], timeout=900)
+    import random as _random
+    pick = _random.Random(c.get("pick", 0))
+    rows = sorted(pick.sample(range(N), min(N, c.get("rows_checked", 120))))
+    base = None
+    count = len(plan)
+    for i, (T, r) in enumerate(plan):
+        tag, payload = res[i]
+        one = dict(c, threads=[T], reps=max(2, c["reps"]))
+        if tag != "R":
+            ctx.violation(one, "K-NN computeGaussianPerplexity with %d OpenMP thread(s) %s on %d samples: %s" % (
+                T, "hangs" if tag == "TIMEOUT" else "aborts", N, payload))
+            return count
+        st["tp_runs"] += 1
+        if base is not None and payload == base[0]:
+            st["tp_bit_identical"] += 1
+            continue
+        verdict, row, col, val = tp_rows(c, payload)
+        if not verdict:
+            chk = rows
+            if base is not None:
+                # rows that differ from the first run come first
+                diff = [n for n in range(N) if col[n * K:(n + 1) * K] != base[2][n * K:(n + 1) * K]
+                        or val[n * K:(n + 1) * K] != base[3][n * K:(n + 1) * K]]
+                chk = diff[:40] + rows
+            verdict = tp_check_rows(c, col, val, chk)
+        if verdict:
+            ctx.violation(one, "%s [%d samples, K = %d, %d OpenMP thread(s)]" % (verdict[1], N, K, T))
+            return count
+        if base is None:
+            base = (payload, row, col, val)
+        else:
+            ctx.note("TP: K-NN similarities with %d thread(s) differ from the first run but meet the row spec" % T)
+    if base is None:
+        return count
+    # symmetrizeMatrix on the real K-NN layout
+    _, row, col, val = base
+    E = sym_reference(N, row, col, val)
+    sbody = "%d %d %s %s %s" % (N, len(col), " ".join(map(str, row)), " ".join(map(str, col)), " ".join(fl(v) for v in val))
+    res = run_impl(ctx, exe, [(i, "SY@%d %d %s" % (T, i, sbody)) for i, (T, r) in enumerate(plan)], timeout=900)
+    count += len(plan)
+    sbase = None
+    for i, (T, r) in enumerate(plan):
+        tag, payload = res[i]
+        one = dict(c, threads=[T], reps=max(2, c["reps"]))
+        if tag != "R":
+            ctx.violation(one, "symmetrizeMatrix with %d OpenMP thread(s) %s on the K-NN similarities of %d samples: %s" % (
+                T, "hangs" if tag == "TIMEOUT" else "aborts", N, payload))
+            return count
+        st["tp_runs"] += 1
+        if sbase is not None and payload == sbase:
+            st["tp_bit_identical"] += 1
+            continue
+        why = sym_check(N, E, payload)
+        if why:
+            ctx.violation(one, "%s [input: the K-NN similarities of these %d samples, K = %d; %d OpenMP thread(s)]" % (
+                why, N, K, T))
+            return count
+        if sbase is None:
+            sbase = payload
+        else:
+            ctx.note("TP: symmetrizeMatrix with %d thread(s): another layout of the same matrix" % T)
+    return count
+
+
+def thread_search(ctx, exe, rng, found, stats):
+    """an OpenMP directive appeared in the t-SNE headers: look for a thread count / size at which a result changes."""
+    nums = sorted({v for f in found for v in f[3] if 2 <= v <= 4000})
+    Ns = []
+    for v in nums:
+        Ns += [v - 1, v, v + 1, min(2 * v, 4000)]
+    Ns += [300, 1500, 3000]
+    Ns = sorted({n for n in Ns if n >= 40})[:9]
+    n = 0
+    for N in Ns:
+        if ctx.has_violation():
+            break
+        n += eval_tg(ctx, exe, gen_tg_case(rng, N, threads=[1, 2, 8, 16], reps=3, closed=(N <= 1200)), stats)
+    for N in [m for m in Ns if m <= 2000][-3:]:
+        if ctx.has_violation():
+            break
+        n += eval_tp(ctx, exe, gen_tp_case(rng, max(N, 100), threads=[1, 2, 8, 16], reps=2), stats)
+    return n, Ns
+
+
 # ----------------------------------------------------------------------------- entry points
 def nontrivial(c):
     k = c["kind"]
@@ -1109,6 +1532,16 @@ def nontrivial(c):
     if k in ("GE", "EE"):
         return len(c["Y"]) >= 3
     return True
+
+
+def omp_obligation(ctx):
+    found = scan_parallel(ctx.repo)
+    if found:
+        ctx.unshown("the t-SNE headers now contain a parallel construct (%s): the serial models of this slice and "
+                    "bh_gradient_limit (C18's quadtree model: per-node scratch buff[2], one running sum_Q) no longer "
+                    "speak about this code" % "; ".join("%s:%d `%s`" % (f[0].split("/")[-1] if "methods" not in f[0]
+                                                                          else "methods/tsne.hpp", f[1], f[2]) for f in found[:4]))
+    return found
 
 
 def run(ctx):
@@ -1127,8 +1560,22 @@ def run(ctx):
     hist.update(h)
     api = gen_api_cases(ctx, rng, ctx.quick)
     hist["API"] = len(api)
+    # larger inputs under several OpenMP thread counts (count-driven)
+    par = omp_obligation(ctx)
+    tcases = [gen_tg_case(rng, rng.randint(1200, 1500)), gen_tp_case(rng, rng.randint(1100, 1300))]
+    if not ctx.quick:
+        tcases += [gen_tg_case(rng, rng.randint(2500, 4000), reps=3, closed=False), gen_tg_case(rng, 999),
+                   gen_tg_case(rng, 1000), gen_tp_case(rng, rng.randint(2000, 2500))]
+    hist["TG"] = sum(1 for c in tcases if c["kind"] == "TG")
+    hist["TP"] = sum(1 for c in tcases if c["kind"] == "TP")
     n = eval_cases(ctx, exe, mexe, cases, stats)
     n += eval_cases(ctx, exe, mexe, api, stats)
+    n += eval_cases(ctx, exe, mexe, tcases, stats)
+    cases += tcases
+    if par and not ctx.has_violation():
+        m, Ns = thread_search(ctx, exe, rng, par, stats)
+        n += m
+        hist["search/threads_N"] = len(Ns)
     if ctx.is_unshown():
         # search phase: a proof or a tie no longer checks -> larger budget against the spec
         more, h2 = gen_cases(ctx, rng, 12 if ctx.quick else 40)
